@@ -191,6 +191,7 @@ type EmitRun struct {
 	Helpers    []HelperCall
 	Writers    []HelperCall // calls of *Emitter methods taking a []byte
 	Imprec     []string
+	Stores     []absint.StoreEvent
 	Final      map[int]absint.Val // field index -> value at return
 	Entry      map[int]absint.Val // field index -> value at entry
 	IP         *absint.Interp
@@ -246,6 +247,13 @@ func runEmitter(ctx *Ctx, roles *EmitterRoles, fn *ssa.Function, cell EmitCell) 
 		} else if b, ok := p.Type().Underlying().(*types.Basic); ok && b.Info()&types.IsString != 0 {
 			run.ParamAtoms = append(run.ParamAtoms, nil)
 			args = append(args, &absint.Str{Key: name})
+		} else if _, ok := p.Type().Underlying().(*types.Slice); ok {
+			run.ParamAtoms = append(run.ParamAtoms, nil)
+			sv := ip.Load(st, &absint.Ptr{Obj: ip.SymObj(name, types.NewPointer(p.Type()))}, p.Type())
+			if sl, ok := sv.(*absint.Slice); ok {
+				sl.Nil = absint.TriF
+			}
+			args = append(args, sv)
 		} else {
 			run.ParamAtoms = append(run.ParamAtoms, nil)
 			args = append(args, &absint.Top{T: p.Type(), Key: name})
@@ -302,8 +310,11 @@ func runEmitter(ctx *Ctx, roles *EmitterRoles, fn *ssa.Function, cell EmitCell) 
 			run.Writers = append(run.Writers, hc)
 		}
 	}
+	ip.TraceStores = true
+	ip.UnrollLoops = true
 	_, out := ip.Call(fn, args, nil, st)
 	run.Returned = out != nil
+	run.Stores = append([]absint.StoreEvent(nil), ip.Stores...)
 	run.Out = out
 	run.Events = append([]absint.Event(nil), ip.Events...)
 	run.Imprec = append([]string(nil), ip.Imprec...)
